@@ -178,6 +178,10 @@ func (r *Report) Violation(key, detail string, replay any) {
 		return
 	}
 
+	if len(detail) > 4000 {
+		detail = detail[:4000] + " ... (truncated)"
+	}
+
 	r.violations[key] = &Violation{Key: key, Detail: detail, Replay: replay, Count: 1}
 	r.vorder = append(r.vorder, key)
 }
